@@ -1,0 +1,16 @@
+//go:build verif
+
+package dns
+
+// Hooks for the verification harness in /verif. This file is only compiled with the
+// "verif" build tag and adds no behaviour to the package.
+
+// VerifTsigVerifyAt is TsigVerifyWithProvider with an explicit clock.
+func VerifTsigVerifyAt(msg []byte, provider TsigProvider, requestMAC string, timersOnly bool, now uint64) error {
+	return tsigVerify(msg, provider, requestMAC, timersOnly, now)
+}
+
+// VerifTsigVerifySecretAt is TsigVerify with an explicit clock.
+func VerifTsigVerifySecretAt(msg []byte, secret, requestMAC string, timersOnly bool, now uint64) error {
+	return tsigVerify(msg, tsigHMACProvider(secret), requestMAC, timersOnly, now)
+}
